@@ -179,6 +179,8 @@ class Types:
                 visit(c, parents + [n])
 
         for st in f.node.body:
+            if isinstance(st, (ast.FunctionDef, ast.AsyncFunctionDef, ast.ClassDef)):
+                continue            # nested definitions are analysed where they are called
             visit(st, [])
         return res
 
